@@ -121,6 +121,8 @@ func (s *session) certCall(w []string, op string) (run twinRun, pre bool) {
 		h := uint32(atoi(w[1]))
 		ac := &blockchain.AggregateCommit{Height: h, AggregationBits: corr.UnHex(w[2]), CertificateSignature: s.buildSig(parseSigSpec(w[3]), op)}
 		return func(x *node.Node) string { return errStr(x.VerifyAggregateCommit(ac)) }, true
+	case "nv":
+		return s.nvCertCall(w, op)
 	case "sc":
 		scs := make([]*certificate.SingleCommit, len(w)-1)
 		for i, sp := range w[1:] {
@@ -156,9 +158,14 @@ func (s *session) certCall(w []string, op string) (run twinRun, pre bool) {
 	return nil, false
 }
 
-// exec executes one op; with the twin oracle switched on, the certificate-protocol part of the op is
-// run on a fresh twin first and compared with the real node.
+// exec executes one op: execTwin, judged afterwards by the certified height of the chain (certified.go).
 func (s *session) exec(op string, idx int) (out string, fails []corr.Fail) {
+	return s.execCertified(op, idx, s.execTwin)
+}
+
+// execTwin executes one op; with the twin oracle switched on, the certificate-protocol part of the op is
+// run on a fresh twin first and compared with the real node.
+func (s *session) execTwin(op string, idx int) (out string, fails []corr.Fail) {
 	w := strings.Fields(op)
 	if !s.twin || s.n == nil || len(w) == 0 || w[0] == "reset" || s.dirty {
 		return s.exec0(op, idx)
@@ -239,7 +246,7 @@ func (s *session) syncRule(w []string) bool {
 			return s.dirty
 		}
 		s.dirty = true
-	case "sc", "certify", "inject", "pool", "cleanup", "select", "upgrade", "getac", "block", "verify", "vblock":
+	case "sc", "certify", "inject", "pool", "cleanup", "select", "upgrade", "getac", "block", "verify", "vblock", "nv":
 		return s.dirty
 	}
 	return false
